@@ -208,4 +208,27 @@ theorem output_dirs_exist (outs : List Bytes) (o : Bytes) (ho : o ∈ outs) (hne
 example : dirsBeforeCommand [[115,117,98,47,120], [115,117,98,47,100,101,101,112,47,121]]
     = [[115,117,98], [115,117,98], [115,117,98,47,100,101,101,112]] := by decide
 
+/-- The same along a whole invocation in which earlier commands removed directory trees: the
+    directories are made again before EVERY command, so whatever existed or was removed before,
+    the parent of each of a step's outputs exists when that step's command starts. -/
+theorem output_dirs_exist_every_step (steps : List (List Bytes × Option Bytes)) (existing : List Bytes)
+    (i : Nat) (outs : List Bytes) (rm : Option Bytes) (hi : steps[i]? = some (outs, rm))
+    (o : Bytes) (ho : o ∈ outs) (hne : parentOf o ≠ []) :
+    ∃ atStart, (chainDirs steps existing)[i]? = some atStart ∧ parentOf o ∈ atStart := by
+  induction steps generalizing existing i with
+  | nil => simp at hi
+  | cons st rest ih =>
+    obtain ⟨outs0, rm0⟩ := st
+    cases i with
+    | zero =>
+      simp only [List.getElem?_cons_zero, Option.some.injEq, Prod.mk.injEq] at hi
+      obtain ⟨rfl, rfl⟩ := hi
+      refine ⟨(existing ++ dirsBeforeCommand outs0).eraseDups, by simp [chainDirs], ?_⟩
+      rw [List.mem_eraseDups]
+      exact List.mem_append_right _ (output_dirs_exist outs0 o ho hne)
+    | succ j =>
+      simp only [List.getElem?_cons_succ] at hi
+      obtain ⟨a, h1, h2⟩ := ih _ j hi
+      exact ⟨a, by simpa [chainDirs] using h1, h2⟩
+
 end N2V.C16
